@@ -59,6 +59,11 @@ func (seq *Sequence) Release() error {
 	seq.Lock()
 	defer seq.Unlock()
 
+	// nothing is leased (e.g. Next was never called): writing seq.next would roll the stored value back
+	if seq.next >= seq.reserved {
+		return nil
+	}
+
 	var buf [8]byte
 	binary.BigEndian.PutUint64(buf[:], seq.next)
 	if err := seq.store.Set(seq.key, buf[:]); err != nil {
